@@ -76,8 +76,8 @@ def asmOf (s : St) (id : Nat) : Option Asm := (s.core.find? (fun p => p.1.id = i
 def updCore (core : List (Asm × Cell)) (id : Nat) (a : Asm) (c : Cell) : List (Asm × Cell) :=
   core.map (fun p => if p.1.id = id then (a, c) else p)
 
-/-- `FuelHandler.swapAssemblies(a1, a2)` for two core assemblies. `none` = raised (state unchanged). -/
-def swap (s : St) (i1 i2 : Nat) : Option St :=
+/-- body of `swapAssemblies` for two different assemblies: stationary exchange, then the two `moveTo` -/
+def swapCore (s : St) (i1 i2 : Nat) : Option St :=
   match s.core.find? (fun p => p.1.id = i1), s.core.find? (fun p => p.1.id = i2) with
   | some (a1, c1), some (a2, c2) =>
     match transfer a1 a2 with
@@ -90,6 +90,11 @@ def swap (s : St) (i1 i2 : Nat) : Option St :=
       let byLoc2 := setLoc byLoc1 c1 i2
       some { s with core := core2, byLoc := byLoc2 }
   | _, _ => none
+
+/-- `FuelHandler.swapAssemblies(a1, a2)` for two core assemblies. `none` = raised (state unchanged). A swap of an
+assembly with itself is skipped with a warning (fix: `if a1 is a2: return`), whatever its blocks. -/
+def swap (s : St) (i1 i2 : Nat) : Option St :=
+  if i1 = i2 then some s else swapCore s i1 i2
 
 /-- loop of `swapCascade`: swap(list[0], list[k]) for k = 1.. ; a raising swap aborts the loop and the swaps
 already done stay done (second component: raised) -/
